@@ -20,7 +20,9 @@
                        from (configured expiry, not-found expiry, expiry + 5 s for the
                        primary written by an index load, the requested expiry); nothing
                        else changes; time only shortens TTLs;
-     (F) invalidation- after a successful Exec / Del every key on a reachable node is gone.
+     (F) invalidation- after a successful Exec / Del every key on a reachable node is gone;
+                       an Exec whose context ended while its first DEL was on the wire: the keys
+                       of that DEL are gone, the others are owed to the cleaner (clause H).
    The flags of [prop_gen] switch on the two exemptions that correspond to the known
    findings F7 (a read of a key with a failed invalidation outstanding is not required
    to be coherent) and F11 (an EXPLICIT SetWithExpire with expiry <= 0 may create a
@@ -246,7 +248,7 @@ Definition db_errors (r : rstate) (o : op) (ob : opobs) : bool :=
         Bool.eqb (is_dberr (o_ret ob)) (r_dbf r && (0 <? o_qi ob + o_qp ob))
       else true)
   && match o with
-     | OExec _ _ _ => if r_dbf r then is_dberr (o_ret ob) && untouched r ob else true
+     | OExec _ _ _ | OExecDie _ _ _ _ => if r_dbf r then is_dberr (o_ret ob) && untouched r ob else true
      | _ => true
      end.
 
@@ -336,6 +338,8 @@ Definition invalidated (r : rstate) (o : op) (ob : opobs) : bool :=
   match o, o_ret ob with
   | OExec _ _ keys, ROk => gone keys
   | ODel keys, _ => gone keys
+  (* the context ended while the first DEL (to node n0) was on the wire: that DEL took effect *)
+  | OExecDie _ _ keys n0, ROk => gone (fst (die_split c keys n0))
   | _, _ => true
   end.
 
@@ -355,7 +359,7 @@ Definition kept (r : rstate) (o : op) (ob : opobs) : bool :=
                | Some _ => true
                | None =>
                  match o with
-                 | OExec _ _ keys | ODel keys => mem_key k keys
+                 | OExec _ _ keys | ODel keys | OExecDie _ _ keys _ => mem_key k keys
                  | OClean _ => owed r k
                  | _ => false
                  end
@@ -397,9 +401,16 @@ Definition check_op (r : rstate) (o : op) (ob : opobs) : bool :=
 Definition newly_owed (r : rstate) (keys : list key) : list (key * Z) :=
   map (fun k => (k, trem (first_task [] 0))) (filter (down r) keys).
 
+(* the keys of an invalidation whose context ended during its first DEL: the later DELs never
+   went out, their keys are owed whatever the state of their node *)
+Definition died_owed (keys : list key) (n0 : Z) : list (key * Z) :=
+  map (fun k => (k, trem (first_task [] 0))) (flat_map tkeys (snd (die_split c keys n0))).
+
 Definition owed_after (r : rstate) (o : op) (ob : opobs) : list (key * Z) :=
   match o, o_ret ob with
   | OExec _ _ keys, ROk => r_owed r ++ newly_owed r keys
+  | OExecDie _ _ keys n0, ROk =>
+    r_owed r ++ newly_owed r (fst (die_split c keys n0)) ++ died_owed keys n0
   | ODel keys, _ => r_owed r ++ newly_owed r keys
   | OClean n, _ => map (fun kz : key * Z => (fst kz, Z.max 0 (snd kz - Z.of_N n))) (r_owed r)
   | _, _ => r_owed r
@@ -410,8 +421,10 @@ Definition next (r : rstate) (o : op) (ob : opobs) : rstate :=
   let ms := fst (step c (r_ms r) o) in
   let ow := owed_after r o ob in
   match o, o_ret ob with
-  | OExec p (Some w) _, ROk => mkR (db_put p w (r_db r)) (r_dbf r) (r_cf r) (o_dump ob) disc ow ms
-  | OExec p None _, ROk => mkR (db_del p (r_db r)) (r_dbf r) (r_cf r) (o_dump ob) disc ow ms
+  | OExec p (Some w) _, ROk | OExecDie p (Some w) _ _, ROk =>
+    mkR (db_put p w (r_db r)) (r_dbf r) (r_cf r) (o_dump ob) disc ow ms
+  | OExec p None _, ROk | OExecDie p None _ _, ROk =>
+    mkR (db_del p (r_db r)) (r_dbf r) (r_cf r) (o_dump ob) disc ow ms
   | ODbFault b, _ => mkR (r_db r) b (r_cf r) (o_dump ob) disc ow ms
   | OCFault n b, _ =>
     mkR (r_db r) (r_dbf r) (if b then n :: r_cf r else filter (fun m => negb (m =? n)) (r_cf r))
